@@ -313,6 +313,10 @@ class Sequence(Container, list):
     def __setslice__(self, i, j, value):
         self.__setitem__(slice(i, j), value)
 
+    def __iadd__(self, iterable):
+        self.extend(iterable)
+        return self
+
     def remove(self, value):
         """Remove member with value *value*.
 
